@@ -2,6 +2,7 @@ package godi
 
 import (
 	"context"
+	"errors"
 	"fmt"
 	"maps"
 	"reflect"
@@ -330,10 +331,11 @@ func (sc *collection) doBuild(ctx context.Context) (Provider, error) {
 		// Clean up partially created provider
 		closeErr := p.Close()
 		if closeErr != nil {
+			// Keep the reason the build failed reachable next to the clean-up failure
 			return nil, &BuildError{
 				Phase:   "cleanup",
 				Details: "failed to clean up partially created provider",
-				Cause:   closeErr,
+				Cause:   errors.Join(err, closeErr),
 			}
 		}
 
